@@ -3,7 +3,7 @@
 import math, struct
 from fractions import Fraction
 import vf
-from c01_table import V, forms, VARIANTS, FIXED_BODIES, gen_word, gen_double, to_float32, RANGE, WT
+from c01_table import V, forms, VARIANTS, FIXED_BODIES, gen_word, gen_double, to_float32, RANGE, WT, limb_boundary
 
 sg = lambda x: (x > 0) - (x < 0)
 B = lambda b: 1 if b else 0
@@ -53,7 +53,7 @@ def fix_cmp_d(pos_x, pos_d, single):
 def fix_cmp_w(pos_x, pos_w, kind):
     """half of the cases: the big operand is put next to the word operand"""
     def fix(rng, a):
-        r = rng.below(6)
+        r = rng.below(8)
         if r == 0:
             a[pos_x] = a[pos_w]
         elif r == 1:
@@ -62,18 +62,31 @@ def fix_cmp_w(pos_x, pos_w, kind):
             a[pos_x] = -a[pos_w]
         elif r == 3:
             a[pos_x] = a[pos_w] + rng.choice([2**64, -2**64, 2**32, -2**32])
+        elif r == 4:    # multi-limb big operand with the sign of the word operand (negative when the type allows it)
+            lo = RANGE[kind][0]
+            if lo < 0 and rng.chance(2, 3):
+                a[pos_w] = -abs(a[pos_w]) if a[pos_w] else lo
+            sgn = -1 if a[pos_w] < 0 else 1
+            a[pos_x] = sgn * (abs(limb_boundary(rng)) + 2**64)
         return a
     return fix
 
 
 def fix_cmp_I(rng, a):
-    r = rng.below(6)
+    r = rng.below(9)
     if r == 0:
         a[1] = a[0]
     elif r == 1:
         a[1] = a[0] + rng.choice([1, -1])
     elif r == 2:
         a[1] = -a[0]
+    elif r == 3:        # same sign, different limb counts (both negative half of the time)
+        sgn = rng.choice([1, -1, -1])
+        a[0] = sgn * abs(limb_boundary(rng)); a[1] = sgn * abs(limb_boundary(rng))
+    elif r == 4:        # a multi-limb operand against a one-limb one of the same sign
+        sgn = rng.choice([1, -1, -1])
+        big = abs(a[0]) + 2**64 * rng.range(1, 3); small = abs(a[1]) % 2**rng.choice([1, 31, 63, 64])
+        a[0], a[1] = (sgn * big, sgn * small) if rng.chance(1, 2) else (sgn * small, sgn * big)
     return a
 
 
@@ -249,7 +262,24 @@ for t in WT:
     V("pow3_" + t, ["Is", "e_" + t], lambda n, l: n**l)
     V("pow_" + t, ["Is", "e_" + t], lambda n, l: n**l)
     V("dom_pow_" + t, ["Is", "e_" + t], lambda n, l: n**l, margs=lambda n, l: [0, n, l])
-V("pow3_uu", ["u64", "e_u64"], lambda n, l: n**l)
+
+
+def fix_pow(rng, a):
+    r = rng.below(6)
+    if r == 0:          # result next to a limb boundary: (2^k)^l, (2^k +- 1)^l
+        k = rng.choice([8, 16, 21, 32, 63, 64])
+        a[0] = rng.choice([1, -1]) * ((1 << k) + rng.choice([-1, 0, 1]))
+        a[1] = rng.choice([0, 1, 2, 3, 4, 8, 64 // k if 64 // k else 1])
+    elif r == 1:
+        a[0] = rng.choice([0, 1, -1, 2, -2])
+        a[1] = rng.choice([0, 1, 2, 63, 64, 65, 127, 128])
+    return a
+
+
+for _nm in list(VARIANTS):
+    if _nm.startswith(("pow3_", "pow_", "dom_pow_")) and "powmod" not in _nm:
+        VARIANTS[_nm]["fix"] = fix_pow
+V("pow3_uu", ["u64", "e_u64"], lambda n, l: n**l, fix=lambda rng, a: [min(abs(x), 2**64 - 1) for x in fix_pow(rng, a)])
 V("pow3_u64@self", ["Is", "e_u64"], lambda n, l: n**l)
 
 
@@ -302,7 +332,7 @@ for nm, site in (("powmod_u64", "powmod(const Integer&,uint64_t,const Integer&)"
 
 # ------------------------------------------------------------------ gcd / lcm / Bezout / inverse
 def fix_gcd(rng, a):
-    r = rng.below(8)
+    r = rng.below(9)
     if r == 0:
         a[1] = a[0] * rng.choice([1, -1, 2, -3])
     elif r == 1:
@@ -314,6 +344,8 @@ def fix_gcd(rng, a):
         a[rng.below(2)] = 0
     elif r == 4:
         a[0], a[1] = rng.choice([(0, 0), (1, 0), (0, -1), (2, 4), (4, -2), (-6, 4)])
+    elif r == 5:        # one-limb against multi-limb, limb boundaries, both signs
+        a[0], a[1] = limb_boundary(rng), limb_boundary(rng) * rng.choice([1, 3, 2**64])
     return a
 
 
@@ -381,10 +413,16 @@ V("dom_invin_unit", ["I"], lambda a: [a] if abs(a) == 1 else [], fix=fix_small)
 
 # ------------------------------------------------------------------ roots (operand >= 0, or odd n)
 def fix_square(rng, a):
-    r = rng.below(4)
+    r = rng.below(6)
     if r == 0:
         s = abs(vf.structured_int(rng, 2)); a[0] = s * s + rng.choice([0, 1, -1, 2 * s, 2 * s + 1])
-        a[0] = max(a[0], 0)
+    elif r == 1:        # one-limb operands beyond 2^52 next to a square (where a floating-point root is off by one)
+        s = rng.range(2**26, 2**32 - 1) if rng.chance(3, 4) else rng.choice([2**32 - 1, 2**31, 94906266, 94906265, 3037000499, 3037000500])
+        a[0] = s * s - rng.choice([0, 1, 1, 2, 3])
+    elif r == 2:        # limb-count boundaries of the operand and of the root
+        k = rng.choice([32, 64, 64, 128, 192])
+        a[0] = (1 << k) + rng.choice([-2, -1, 0, 1]) if rng.chance(1, 2) else ((1 << (k // 2)) + rng.choice([-1, 0, 1]))**2 - rng.choice([0, 1])
+    a[0] = max(a[0], 0)
     return a
 
 
@@ -414,10 +452,15 @@ def o_root(a, n):
 
 def fix_root(rng, a):
     x, n = a
-    if rng.chance(1, 3):
+    r = rng.below(6)
+    if r < 2:
         q = vf.structured_int(rng, 1)
         q = sg(q) * (abs(q) % 2**40)
         x = q**n + rng.choice([0, 0, 1, -1])
+    elif r == 2:        # the operand fills one limb / crosses into two limbs: q^n next to 2^64, 2^128
+        k = rng.choice([53, 63, 64, 65, 128])
+        q = iroot(1 << k, n) + rng.choice([0, 1, -1])
+        x = rng.choice([1, -1]) * (max(q, 0)**n + rng.choice([0, -1, 1]))
     if n % 2 == 0:
         x = abs(x)
     return [x, n]
